@@ -129,6 +129,63 @@ def callee_resolved(f, fb):
     return r
 
 
+NAMED_LITERALS = {}  # def path of a `const NAME: int = literal;` -> value (filled while fact files are loaded)
+
+
+def _literal_of_const_body(raw):
+    vals = []
+    for blk in raw.get("blocks") or []:
+        for st in blk["stmts"]:
+            if st["k"] == "assign" and st["p"]["l"] == 0 and not st["p"]["proj"]:
+                r = st["r"]
+                if r["k"] == "use" and r["x"]["k"] == "const" and "int" in r["x"] and "uneval" not in r["x"]:
+                    vals.append(int(r["x"]["int"]))
+                else:
+                    return None
+            elif st["k"] == "assign":
+                return None
+        if blk["term"]["k"] not in ("return", "goto", "unreachable"):
+            return None
+    return vals[0] if len(vals) == 1 else None
+
+
+def strip_debug_assertions(raw):
+    """`debug_assert!(..)` does not exist in a build without debug assertions (cargo's release profile, what
+    `cargo install` produces).  The facts are extracted from a development build, where the macro expands to
+    `if cfg!(debug_assertions) { if !cond { panic } }`: the test of the configuration flag is replaced by a jump to
+    its `false` side and what hangs only below the `true` side is emptied, so that neither the panic nor the
+    evaluation of the condition is seen by the rules.  (Arithmetic overflow checks are kept: without them the
+    operation wraps, which is a wrong value in either build.)  Returns the number of assertions removed."""
+    blocks = raw.get("blocks") or []
+    n = 0
+    for blk in blocks:
+        t = blk["term"]
+        exp = t.get("span", {}).get("exp", []) if isinstance(t.get("span"), dict) else []
+        if t["k"] == "switch" and any(e.endswith("debug_assert") or e.endswith("debug_assert_eq") or e.endswith("debug_assert_ne") for e in exp) and any(e.endswith("::cfg") or e == "macro:cfg" for e in exp):
+            # the side taken when the flag is false: the arm for 0, or `otherwise` when 0 has no arm
+            zero = [bb for v, bb in t["arms"] if int(v) == 0]
+            tgt = zero[0] if zero else t["otherwise"]
+            blk["term"] = {"k": "goto", "t": tgt, "span": t["span"]}
+            n += 1
+    if n:
+        # empty what is no longer reachable
+        succ = lambda t: ([t["t"]] if t.get("t") is not None and t["k"] in ("goto", "drop", "assert", "call") else []) + ([bb for _, bb in t["arms"]] + [t["otherwise"]] if t["k"] == "switch" else []) + ([t["unwind"]] if t.get("unwind") is not None else [])
+        seen, st = set(), [0]
+        while st:
+            x = st.pop()
+            if x in seen or x >= len(blocks):
+                continue
+            seen.add(x)
+            st.extend(succ(blocks[x]["term"]))
+        for i, blk in enumerate(blocks):
+            if i not in seen:
+                blk["stmts"] = []
+                blk["term"] = {"k": "unreachable", "span": blk["term"].get("span", {"at": "?", "exp": []})}
+                blk["cleanup"] = True
+        raw["_debug_assertions_removed"] = n
+    return n
+
+
 class FactBase:
     def __init__(self, files, inline=True):
         self.crates = {}
@@ -142,6 +199,11 @@ class FactBase:
             self.crates[fn] = d["crate"]
             self.impls.extend(d.get("impls", []))
             for raw in d["bodies"]:
+                strip_debug_assertions(raw)
+                if raw.get("kind") == "const" and not raw["path"].startswith("hvwitness::"):
+                    v_ = _literal_of_const_body(raw)
+                    if v_ is not None:
+                        NAMED_LITERALS[raw["path"]] = v_
                 b = Body(raw, d["crate"])
                 if raw["kind"] == "promoted":
                     self.promoted[(raw["path"], raw["promoted"])] = b
